@@ -444,6 +444,14 @@ static void runDict(const Case &c) {
       StringDictionary *nd = loadOwn(op[1], ss, op.size() > 2 ? (uint)atoi(op[2].c_str()) : 1);
       emit("F %s", nd ? "LOADED" : "NULL");
       delete nd;
+    } else if (o == "badtag") { // this image with its 32-bit type tag overwritten, through the generic loader
+      string img = saveImage(d);
+      uint32_t tag = (uint32_t)strtoul(op[1].c_str(), nullptr, 10);
+      if (img.size() >= 4) memcpy(&img[0], &tag, 4);
+      std::stringstream ss(img, std::ios::in | std::ios::out | std::ios::binary);
+      StringDictionary *nd = StringDictionary::load(ss, op.size() > 2 ? (uint)atoi(op[2].c_str()) : 1);
+      emit("BT %s", nd ? "LOADED" : "NULL");
+      delete nd;
     } else if (o == "blocksdet") { // blocksdet <strategy> <seed> <thr> <thr> ... : images equal the single-thread image
       Case c1 = c; c1.par["thr"] = "1";
       g_perturb.strategy = 0;
@@ -706,6 +714,57 @@ static void runBits(const Case &c) {
       emit("BV n=%zu acc=%s r1=%s r0=%s s1=%s s0=%s cnt=%zu img=%s", n, acc.empty() ? "-" : acc.c_str(), r1.empty() ? "-" : r1.c_str(),
            r0.empty() ? "-" : r0.c_str(), s1.empty() ? "-" : s1.c_str(), s0.empty() ? "-" : s0.c_str(), bs->countOnes(), rgimg.c_str());
       delete bs; delete[] arr;
+    } else if (op[0] == "bvh") { // bvh <impl> <param> <nbits> <hex>: long vectors, self-checked against the plain definitions, summary only
+      string impl = op[1]; uint par = (uint)atoi(op[2].c_str()); size_t n = strtoull(op[3].c_str(), nullptr, 10);
+      string bytes = unhex(op[4]);
+      size_t words = n / 32 + 2;
+      uint *arr = new uint[words];
+      for (size_t i = 0; i < words; i++) arr[i] = 0;
+      vector<size_t> pos1, pos0;
+      for (size_t k = 0; k < n; k++) {
+        bool b = (bytes[k / 8] >> (k % 8)) & 1;
+        if (b) { arr[k / 32] |= (1u << (k % 32)); pos1.push_back(k); } else pos0.push_back(k);
+      }
+      size_t badTotal[2] = {0, 0}; string first;
+      for (int phase = 0; phase < 2; phase++) {
+        cds_static::BitSequence *bs = nullptr;
+        if (impl == "rg") bs = new cds_static::BitSequenceRG(arr, n, par);
+        else if (impl == "rrr") bs = new cds_static::BitSequenceRRR(arr, n, par);
+        else if (impl == "sd") bs = new cds_static::BitSequenceSDArray(arr, n);
+        else if (impl == "da") bs = new cds_static::BitSequenceDArray(arr, n);
+        if (bs && phase == 1) {
+          std::stringstream ss(std::ios::in | std::ios::out | std::ios::binary);
+          bs->save(ss);
+          cds_static::BitSequence *b2 = cds_static::BitSequence::load(ss);
+          delete bs; bs = b2;
+        }
+        if (!bs) { badTotal[phase] = 1; if (first.empty()) first = "null-object"; continue; }
+        size_t bad = 0;
+        auto note = [&](const char *what, size_t arg, size_t got, size_t want) {
+          bad++;
+          if (first.empty()) { char b[160]; snprintf(b, sizeof b, "%s(%zu)=%zu,expected=%zu,%s", what, arg, got, want, phase ? "reloaded" : "built"); first = b; }
+        };
+        // every rank when there are at most 60000 of them, otherwise the first and last 3000 and every 13th
+        auto take = [](size_t j, size_t cnt) { return cnt <= 60000 || j <= 3000 || j + 3000 > cnt || j % 13 == 0; };
+        for (size_t j = 1; j <= pos1.size(); j++) if (take(j, pos1.size())) { size_t g = bs->select1(j); if (g != pos1[j - 1]) note("select1", j, g, pos1[j - 1]); }
+        for (size_t j = 1; j <= pos0.size(); j++) if (take(j, pos0.size())) { size_t g = bs->select0(j); if (g != pos0[j - 1]) note("select0", j, g, pos0[j - 1]); }
+        size_t r = 0, nx = 0;
+        for (size_t k = 0; k < n; k++) {
+          bool b = (bytes[k / 8] >> (k % 8)) & 1;
+          if (b) r++;
+          if (k == nx || k + 1 == n || k % 32 == 31 || k % 32 == 0) {
+            if (k == nx) nx += 97;
+            size_t g = bs->rank1(k); if (g != r) note("rank1", k, g, r);
+            size_t g0 = bs->rank0(k); if (g0 != k + 1 - r) note("rank0", k, g0, k + 1 - r);
+            bool a = bs->access(k); if (a != b) note("access", k, a, b);
+          }
+        }
+        if (bs->countOnes() != pos1.size()) note("countOnes", 0, bs->countOnes(), pos1.size());
+        badTotal[phase] = bad;
+        delete bs;
+      }
+      emit("BVH n=%zu ones=%zu bad=%zu bad_reloaded=%zu%s%s", n, pos1.size(), badTotal[0], badTotal[1], first.empty() ? "" : " first=", first.c_str());
+      delete[] arr;
     } else if (op[0] == "wt") { // wt <impl> <comma separated symbols> [reload]
       string impl = op[1];
       auto f = splitc(op[2]);
